@@ -182,11 +182,17 @@ impl Check for C01 {
                     };
                     let key = if rng.chance(2, 3) { 1 } else { pick(rng) };
                     let layers: Vec<crate::c05::Layer> = (0..rng.below(3))
-                        .map(|_| match rng.below(4) {
+                        .map(|_| match rng.below(9) {
                             0 => crate::c05::Layer::Array(pick(rng)),
                             1 => crate::c05::Layer::Inline(pick(rng), 1),
                             2 => crate::c05::Layer::Inline(pick(rng).min(30), 1 + rng.below(3)),
-                            _ => crate::c05::Layer::Mixed(pick(rng)),
+                            3 => crate::c05::Layer::Mixed(pick(rng)),
+                            // breadth instead of depth: must not count against the limit
+                            4 => crate::c05::Layer::WideArray(rng.below(8), *rng.pick(&[3usize, 40, 85, 200])),
+                            5 => crate::c05::Layer::WideInline(*rng.pick(&[2usize, 30, 79, 81, 150]), 1 + rng.below(3)),
+                            6 => crate::c05::Layer::Pre(rng.below(8), *rng.pick(&[3usize, 60, 85, 120])),
+                            7 => crate::c05::Layer::Inline(1, pick(rng)),
+                            _ => crate::c05::Layer::LedArray(rng.below(4), pick(rng)),
                         })
                         .collect();
                     let r = crate::c05::Recipe { header, key, layers };
